@@ -1790,7 +1790,7 @@ def oracle_for(prop, c, obs):
                 if canon_snap(before) != canon_snap(after):
                     if st.get("moved"):
                         bad.append("rejected %s into list %s of the item at %r (it lives in another list) changed the configuration: the lists are not as they were"
-                                   % (o[0], o[1], c["ops"][len(c["ops"]) - 1][1][4]))
+                                   % (o[0], o[1], o[4] if len(o) > 4 else o[-1]))
                     bad.append("rejected %s %r changed the configuration" % (o[0], o[1:3]))
                 if not all(st["same"].values()):
                     bad.append("rejected %s %r replaced nested configuration objects: %r" % (o[0], o[1:3], st["same"]))
